@@ -134,3 +134,11 @@ impl Lir<'_> {
         self.inner.codegen()
     }
 }
+
+impl<'r> Lir<'r> {
+    /// The wrapped pipeline stage, for hooks of other properties in this
+    /// module tree (C20 perturbs the IR before evaluating it).
+    pub(crate) fn inner_mut(&mut self) -> &mut LoweredToLir<'r, NoCtx> {
+        &mut self.inner
+    }
+}
